@@ -52,7 +52,7 @@ def _source_path(name):
 def run_child(source, cfg, ops, want_text=()):
     job = {"repo": core.repo_root(), "verif": core.VERIF_DIR, "source": source, "layout_seed": cfg.get("layout"),
            "gc": cfg.get("gc"), "prewarm": cfg.get("prewarm"), "xref": cfg.get("xref", True), "ops": ops,
-           "want_text": [list(t) for t in want_text], "ambient": cfg.get("ambient")}
+           "want_text": [list(t) for t in want_text], "ambient": cfg.get("ambient"), "prior_source": cfg.get("prior_source")}
     env = dict(os.environ, PYTHONHASHSEED=str(cfg["hashseed"]), PYTHONDONTWRITEBYTECODE="1")
     env.pop("PYTHONPATH", None)
     try:
@@ -110,7 +110,9 @@ def draw_group(seed):
                      "gc": hr.choice([None, "off", "collect"]), "prewarm": hr.random() < 0.5, "xref": hr.random() < 0.7,
                      "ambient": {"time_base": 1.5e9 + hr.randrange(10 ** 8), "TZ": hr.choice(["UTC", "Asia/Tokyo", "America/New_York"]),
                                  "LANG": hr.choice(["C", "en_US.UTF-8", "tr_TR.UTF-8"]), "LC_ALL": hr.choice(["", "C", "C.UTF-8"]),
-                                 "cwd": "/dev/shm/verif-c22-cwd/%d" % hr.randrange(4)}})
+                                 "cwd": "/dev/shm/verif-c22-cwd/%d" % hr.randrange(4),
+                                 "clock_step": hr.choice([1e-6, 0.0137, 0.9, 7.0, 3600.0])},
+                     "prior_source": ({"kind": "file", "path": _source_path(hr.choice(SMALL))} if hr.random() < 0.3 else None)})
         ops = [list(o) for o in canon]
         hr.shuffle(ops)
         extra = []
